@@ -649,6 +649,18 @@ class Executor(ExprMixin, StmtMixin, Engine):
                 st.assume(g)      # this view leaves callee preconditions to the main view
             else:
                 self.prove(st, g, 'pre', line, '%s.%d' % (cname, j), text=r)
+        # a pure contract whose only postcondition defines the result as a term: use the term
+        if c.pure and not c.raises and not c.may_raise and not c.modifies and len(c.ensures) == 1 \
+                and isinstance(c.ensures[0], str) and c.ensures[0].startswith('result == '):
+            try:
+                val = self.spec_val(c.ensures[0][len('result == '):], st, args, st)
+                if not isinstance(c.returns, TNone) and c.returns is not None:
+                    val = self.coerce(val if not isinstance(val.t, TBool) or isinstance(c.returns, TBool) else val, c.returns) \
+                        if val.t != c.returns else val
+                yield st, val
+                return
+            except OutOfSubset:
+                pass
         old = st.fork()
         # 2. exceptional edges
         normal_guard = []
